@@ -8,6 +8,7 @@ import (
 	"sort"
 	"strings"
 
+	"golang.org/x/tools/go/packages"
 	"jsverif/internal/prog"
 )
 
@@ -1639,10 +1640,28 @@ func (c *Ctx) ruleIDSeparator(rule string) {
 // the others accept.
 func (c *Ctx) ruleRulesEverywhere(rule string) {
 	r := c.R
-	r.Rule(rule, "every function of the library that makes a JSight schema object from the text of a directive body (jschema.New with a content that is not a constant) also calls AddRule on that object (directly or through the wrapper that embeds it): Path, Query, Headers, bodies and user types all know the ENUM directives of the project", 3)
+	r.Rule(rule, "every function of the library that makes a JSight schema object from the text of a directive body (jschema.New with a content that is not a constant) hands ALL the rules of the project to THAT object before it leaves the function: every path from the construction to a return without error passes a range loop over a map of schema rules (or a call of a library helper that contains one) whose every round calls AddRule(key, value) on the object made - or on the wrapper made around it: Path, Query, Headers, bodies and user types all know the ENUM directives of the project", 3)
 	n := 0
 	for _, f := range c.libFns() {
 		pk := f.Pkg
+		// the bodies of the function and of its function literals, innermost first
+		var bodies []*ast.BlockStmt
+		ast.Inspect(f.Decl.Body, func(nd ast.Node) bool {
+			if lit, ok := nd.(*ast.FuncLit); ok {
+				bodies = append(bodies, lit.Body)
+			}
+			return true
+		})
+		bodies = append(bodies, f.Decl.Body)
+		innermost := func(nd ast.Node) *ast.BlockStmt {
+			var best *ast.BlockStmt
+			for _, b := range bodies {
+				if b.Pos() <= nd.Pos() && nd.End() <= b.End() && (best == nil || b.End()-b.Pos() < best.End()-best.Pos()) {
+					best = b
+				}
+			}
+			return best
+		}
 		var news []*ast.CallExpr
 		ast.Inspect(f.Decl.Body, func(nd ast.Node) bool {
 			call, ok := nd.(*ast.CallExpr)
@@ -1662,23 +1681,270 @@ func (c *Ctx) ruleRulesEverywhere(rule string) {
 		for _, mk := range news {
 			n++
 			key := f.Name() + " | " + exprString(mk.Fun)
-			adds := false
-			ast.Inspect(f.Decl.Body, func(nd ast.Node) bool {
-				if call, ok := nd.(*ast.CallExpr); ok {
-					if cal := callee(pk, call); cal != nil && cal.Name() == "AddRule" {
-						adds = true
+			body := innermost(mk)
+			fc := buildCFG(body)
+			// the variables that hold the object made, or something made around it
+			holders := map[types.Object]bool{}
+			for round := 0; round < 3; round++ {
+				ast.Inspect(body, func(nd ast.Node) bool {
+					as, ok := nd.(*ast.AssignStmt)
+					if !ok || len(as.Lhs) != len(as.Rhs) {
+						return true
+					}
+					for i, lhs := range as.Lhs {
+						id, ok := lhs.(*ast.Ident)
+						if !ok {
+							continue
+						}
+						obj := pk.TypesInfo.ObjectOf(id)
+						if obj == nil || holders[obj] {
+							continue
+						}
+						from := false
+						ast.Inspect(as.Rhs[i], func(m ast.Node) bool {
+							if m == ast.Node(mk) {
+								from = true
+							}
+							if rid, ok := m.(*ast.Ident); ok && holders[pk.TypesInfo.Uses[rid]] {
+								from = true
+							}
+							return !from
+						})
+						if from {
+							holders[obj] = true
+						}
+					}
+					return true
+				})
+			}
+			rootHolder := func(e ast.Expr) bool {
+				for {
+					switch x := ast.Unparen(e).(type) {
+					case *ast.SelectorExpr:
+						e = x.X
+						continue
+					case *ast.StarExpr:
+						e = x.X
+						continue
+					case *ast.Ident:
+						return holders[pk.TypesInfo.Uses[x]]
+					}
+					return false
+				}
+			}
+			// the nodes that give the object all the rules
+			var gives []ast.Node
+			ast.Inspect(body, func(nd ast.Node) bool {
+				switch x := nd.(type) {
+				case *ast.RangeStmt:
+					if innermost(x) != body || !isRuleMap(pk.TypesInfo.TypeOf(x.X)) {
+						return true
+					}
+					kid, _ := x.Key.(*ast.Ident)
+					vid, _ := x.Value.(*ast.Ident)
+					if kid == nil || vid == nil {
+						return true
+					}
+					ko, vo := pk.TypesInfo.ObjectOf(kid), pk.TypesInfo.ObjectOf(vid)
+					if fc.everyRoundPasses(x, func(m ast.Node) bool {
+						call, ok := m.(*ast.CallExpr)
+						if !ok || len(call.Args) != 2 {
+							return false
+						}
+						cal := callee(pk, call)
+						sel, isSel := ast.Unparen(call.Fun).(*ast.SelectorExpr)
+						if cal == nil || cal.Name() != "AddRule" || !isSel || !rootHolder(sel.X) {
+							return false
+						}
+						a0, _ := ast.Unparen(call.Args[0]).(*ast.Ident)
+						a1, _ := ast.Unparen(call.Args[1]).(*ast.Ident)
+						return a0 != nil && a1 != nil && pk.TypesInfo.Uses[a0] == ko && pk.TypesInfo.Uses[a1] == vo
+					}) {
+						gives = append(gives, emptinessGuardOf(pk, body, x))
+					}
+				case *ast.CallExpr:
+					if innermost(x) != body {
+						return true
+					}
+					if c.givesAllRules(pk, x, rootHolder) {
+						gives = append(gives, x)
 					}
 				}
 				return true
 			})
-			if adds {
-				r.Ok(rule, key, "the rules of the project are added to the schema in the same function", c.pos(mk.Pos()))
-			} else {
+			// every return without error that the construction reaches
+			var open []string
+			ast.Inspect(body, func(nd ast.Node) bool {
+				if _, isLit := nd.(*ast.FuncLit); isLit {
+					return false
+				}
+				ret, ok := nd.(*ast.ReturnStmt)
+				if !ok {
+					return true
+				}
+				if len(ret.Results) > 0 && !isNil(pk, ret.Results[len(ret.Results)-1]) {
+					if isErrorLike(pk.TypesInfo.TypeOf(ret.Results[len(ret.Results)-1])) {
+						return true // a failure: nothing leaves the function
+					}
+				}
+				if fc.reachesAvoiding(mk, ret, gives) {
+					open = append(open, c.pos(ret.Pos()))
+				}
+				return true
+			})
+			switch {
+			case len(gives) == 0:
 				r.Bad(rule, key, "a schema is made from the text of a body without the rules of the project: {enum: @name} in it is refused ('Enum is not found') although the ENUM is declared and the same schema is accepted under another directive", c.pos(mk.Pos()))
+			case len(open) > 0:
+				r.Bad(rule, key, "a schema made from the text of a body can leave the function without the rules of the project (return at "+strings.Join(open, ", ")+" is reached around the loop that adds them)", c.pos(mk.Pos()))
+			default:
+				r.Ok(rule, key, "every rule of the project is added to the schema on every path to a successful return", c.pos(mk.Pos()))
 			}
 		}
 	}
 	if n < 3 {
 		r.Undecided(rule, "sites", fmt.Sprintf("only %d constructions of a schema from a body found", n), "")
 	}
+}
+
+// emptinessGuardOf: the node that stands for "the loop over x.X ran": the ranged expression, or - when the loop is the
+// only statement of an if without else that merely asks whether the map has anything in it (len(m) > 0, len(m) != 0,
+// m != nil) - the condition of that if (the path around the loop is then the path of an empty map).
+func emptinessGuardOf(pk *packages.Package, body *ast.BlockStmt, x *ast.RangeStmt) ast.Node {
+	var res ast.Node = x.X
+	want := exprString(x.X)
+	ast.Inspect(body, func(nd ast.Node) bool {
+		ifs, ok := nd.(*ast.IfStmt)
+		if !ok || ifs.Else != nil || ifs.Init != nil || len(ifs.Body.List) != 1 || ifs.Body.List[0] != ast.Stmt(x) {
+			return true
+		}
+		be, ok := ast.Unparen(ifs.Cond).(*ast.BinaryExpr)
+		if !ok {
+			return true
+		}
+		if call, ok := ast.Unparen(be.X).(*ast.CallExpr); ok && len(call.Args) == 1 && exprString(call.Fun) == "len" && exprString(call.Args[0]) == want {
+			if k, isK := constInt(pk, be.Y); isK && k == 0 && (be.Op == token.GTR || be.Op == token.NEQ) {
+				res = ifs.Cond
+			}
+		}
+		if be.Op == token.NEQ && exprString(be.X) == want && isNil(pk, be.Y) {
+			res = ifs.Cond
+		}
+		return true
+	})
+	return res
+}
+
+// isRuleMap: a map whose elements are rules of the schema library.
+func isRuleMap(t types.Type) bool {
+	if t == nil {
+		return false
+	}
+	m, ok := t.Underlying().(*types.Map)
+	return ok && strings.HasSuffix(namedType(m.Elem()), "Rule")
+}
+
+// givesAllRules: the call hands a holder of the schema and a map of rules to a library function whose body adds every
+// rule of that map to that parameter (one level of helper).
+func (c *Ctx) givesAllRules(pk *packages.Package, call *ast.CallExpr, holder func(ast.Expr) bool) bool {
+	cal := callee(pk, call)
+	if cal == nil {
+		return false
+	}
+	g := c.fnOf(cal)
+	if g == nil || g.Decl == nil || g.Decl.Body == nil {
+		return false
+	}
+	// which argument (or the receiver) is the holder, which the rules
+	hIdx := -1
+	if sel, ok := ast.Unparen(call.Fun).(*ast.SelectorExpr); ok && g.Decl.Recv != nil && holder(sel.X) {
+		hIdx = -2
+	}
+	for i, a := range call.Args {
+		if holder(a) {
+			hIdx = i
+		}
+	}
+	if hIdx == -1 {
+		return false
+	}
+	var hObj types.Object
+	if hIdx == -2 {
+		if len(g.Decl.Recv.List) == 1 && len(g.Decl.Recv.List[0].Names) == 1 {
+			hObj = g.Pkg.TypesInfo.Defs[g.Decl.Recv.List[0].Names[0]]
+		}
+	} else {
+		hObj = paramObjAt(g, hIdx)
+	}
+	if hObj == nil {
+		return false
+	}
+	gfc := buildCFG(g.Decl.Body)
+	gHolder := func(e ast.Expr) bool {
+		for {
+			switch x := ast.Unparen(e).(type) {
+			case *ast.SelectorExpr:
+				e = x.X
+				continue
+			case *ast.StarExpr:
+				e = x.X
+				continue
+			case *ast.Ident:
+				return g.Pkg.TypesInfo.Uses[x] == hObj
+			}
+			return false
+		}
+	}
+	var loops []ast.Node
+	ast.Inspect(g.Decl.Body, func(nd ast.Node) bool {
+		x, ok := nd.(*ast.RangeStmt)
+		if !ok || !isRuleMap(g.Pkg.TypesInfo.TypeOf(x.X)) {
+			return true
+		}
+		kid, _ := x.Key.(*ast.Ident)
+		vid, _ := x.Value.(*ast.Ident)
+		if kid == nil || vid == nil {
+			return true
+		}
+		ko, vo := g.Pkg.TypesInfo.ObjectOf(kid), g.Pkg.TypesInfo.ObjectOf(vid)
+		if gfc.everyRoundPasses(x, func(m ast.Node) bool {
+			cl, ok := m.(*ast.CallExpr)
+			if !ok || len(cl.Args) != 2 {
+				return false
+			}
+			cc := callee(g.Pkg, cl)
+			sel, isSel := ast.Unparen(cl.Fun).(*ast.SelectorExpr)
+			if cc == nil || cc.Name() != "AddRule" || !isSel || !gHolder(sel.X) {
+				return false
+			}
+			a0, _ := ast.Unparen(cl.Args[0]).(*ast.Ident)
+			a1, _ := ast.Unparen(cl.Args[1]).(*ast.Ident)
+			return a0 != nil && a1 != nil && g.Pkg.TypesInfo.Uses[a0] == ko && g.Pkg.TypesInfo.Uses[a1] == vo
+		}) {
+			loops = append(loops, emptinessGuardOf(g.Pkg, g.Decl.Body, x))
+		}
+		return true
+	})
+	if len(loops) == 0 {
+		return false
+	}
+	// the helper's successful returns all lie behind the loop
+	ok := true
+	ast.Inspect(g.Decl.Body, func(nd ast.Node) bool {
+		if _, isLit := nd.(*ast.FuncLit); isLit {
+			return false
+		}
+		ret, isRet := nd.(*ast.ReturnStmt)
+		if !isRet {
+			return true
+		}
+		if len(ret.Results) > 0 && !isNil(g.Pkg, ret.Results[len(ret.Results)-1]) && isErrorLike(g.Pkg.TypesInfo.TypeOf(ret.Results[len(ret.Results)-1])) {
+			return true
+		}
+		if gfc.reachesFromEntryAvoiding(ret, loops) {
+			ok = false
+		}
+		return true
+	})
+	return ok
 }
